@@ -139,6 +139,17 @@ def run(ctx):
                     ctx.violation(sig, detail, {"surface": "byteslimits", "profile": prof, "history": hist, "max_alloc": mx})
                 if harness:
                     ctx.broken.append("harness C09 (byteslimits): " + harness[0][:300])
+        if not replay:
+            rc, out, _, oracle, dist, harness = run_harness(ctx, paths["hx_mheap"], "crossres", ctx.seed, 1, 1)
+            if rc != 0:
+                ctx.violation("hx_mheap-crash:crossres", "cross-resource scenario crashed", {"output_tail": out[-1500:]})
+            for k, v in dist.items():
+                dist_all["crossres:" + k] = dist_all.get("crossres:" + k, 0) + v
+            for sig, detail, hist in oracle:
+                ctx.cov["direct_oracle_failures"] += 1
+                ctx.violation(sig, detail, {"surface": "crossres", "profile": prof, "history": hist})
+            if harness:
+                ctx.broken.append("harness C09 (crossres): " + harness[0][:300])
         for surface, n in plan.items():
             # thorough: a second, independent seed stream per profile
             seeds = [ctx.seed] if (quick or replay) else [ctx.seed, ctx.seed + 7919]
@@ -207,7 +218,18 @@ def run(ctx):
                     # a divergence from the model is a concrete input on which the implementation leaves the
                     # proved behaviour; report it with the history so that it can be replayed
                     for d in dis[:2]:
-                        ctx.violation(f"mheap-tie:{surface}:diverges-from-model", "implementation and proved model disagree",
+                        sig = f"mheap-tie:{surface}:diverges-from-model"
+                        fd = d.get("first_divergent_step") or {}
+                        try:
+                            mv = int(fd.get("model", [0, 0])[1])
+                        except Exception:
+                            mv = 0
+                        if surface != "bytes" and (1 << 60) <= mv < (1 << 60) + 100000000:
+                            # the model expects the placeholder of a stored heap string, the implementation hands back something else
+                            sig = f"mheap-tie:{surface}:stored-heap-object-lost"
+                        elif surface == "bytes" and re.search(r"(fsys|netw)\.close\(", d.get("history", "")):
+                            sig = "mheap-tie:bytes:diverges-after-foreign-close"
+                        ctx.violation(sig, "implementation and proved model disagree",
                                       {"surface": surface, "profile": prof, **d})
                 if tag is None:
                     ctx.add_samples([{"surface": surface, "query": q[:400], "observed": o[:300]} for q, o in cases[:1]], limit=8)
